@@ -7,7 +7,7 @@ EXPLANATION = ("Decides on the MIR of the current tree: who may block/wake lock 
                "writers of the lock-holder fields and their guards (L1), that try_*/acquire results are the value computed by post_acquire (L2), "
                "the pairing of the rt bookkeeping with the inner std lock in the public front-ends and guards (L3) and that get_mut/into_inner "
                "only forward to the std lock (L4). Exclusion in every explored execution (behaviour) is not decided."
-               " The block loop of post_acquire* is unconditional on the success path (S5b); the reader/writer arms of post_acquire_read_lock are decided on lock-state scenarios (L1r); G0/G1 cross-check the block/wake steps.")
+               " The block loop of post_acquire* is unconditional on the success path (S5b); the reader/writer arms of post_acquire_read_lock are decided on lock-state scenarios (L1r); G0/G1 cross-check the block/wake steps. A pending try_lock/try_read/try_write is never disabled by another thread's acquire (S10), and the lock state a try_* observes changes only at branch points (V4, known finding KF-N).")
 RULE_TEXT = ("rule instances = transition sites, lock-field writers, front-end methods; non-trivial when matched to concrete MIR sites")
 LEVEL_NOTE = "necessary conditions only"
 
@@ -396,6 +396,8 @@ def run(ctx):
     guardvocab.G2(ctx, scopes=('rt::mutex::', 'rt::rwlock::', 'rt::object::Ref', 'sync::mutex::', 'sync::rwlock::'))
     guardvocab.G3(ctx, scopes=('rt::mutex::', 'rt::rwlock::', 'rt::object::Ref', 'sync::mutex::', 'sync::rwlock::'))
     g_state.run_all(ctx, ["S2", "S3", "S5", "S5b", "S7", "S9", "S10", "D2"])
+    from . import round6
+    round6.V4(ctx)
     g_sync.run_all(ctx, ["Y1:mutex,rwlock", "Y1c"])
     L1(ctx)
     L2(ctx)
